@@ -7,9 +7,12 @@ PLAIN = {"poll": 5, "ping_rate": 0, "ping_timeout": 0, "close_timeout": 0, "auto
 
 def instances(tier):
     q = tier == 'quick'
-    return [{"label": "conforming-server", "cfg": PLAIN,
-             "consts": dict(HttpItems='HttpOk', Items='C01Items', Cfg='CfgPlain', MaxItems=3 if q else 4,
-                            ChunkMax=2, Conforming=True)}]
+    out = [{"label": "conforming-server", "cfg": PLAIN,
+            "consts": dict(HttpItems='HttpOk', Items='C01Items', Cfg='CfgPlain', MaxItems=3, ChunkMax=2, Conforming=True)}]
+    if not q:
+        out.append({"label": "conforming-server-deep-simulation", "cfg": PLAIN, "simulate": "num=30000", "depth": 300,
+                    "consts": dict(HttpItems='HttpOk', Items='C01Items', Cfg='CfgPlain', MaxItems=8, ChunkMax=4, Conforming=True)})
+    return out
 
 
 def variants(sc, b):
